@@ -127,8 +127,8 @@ def run(c):
     # process restarts: a new RestartManager probes the folder (InitRule "probe", fix of the former known finding);
     # Layer B now satisfies Layer A here too.  The scenarios are generated from the graph and the real code is
     # judged on them
-    for m in ([1, 2] if tier == "quick" else [1, 2, 3, 5]):
-        nd = 4 if tier == "quick" else 6
+    for m in ([1, 2, 3] if tier == "quick" else [1, 2, 3, 4, 5]):
+        nd = (5 if m >= 3 else 4) if tier == "quick" else 6
         cfg = os.path.join(rd, "RRp_%d.cfg" % m)
         open(cfg, "w").write(cfg_text(m, nd, pr=1, inv=True))
         dot = os.path.join(rd, "RRp_%d.dot" % m)
@@ -143,6 +143,9 @@ def run(c):
             if "p" in s:
                 scen.append((m, s, pt, at, fs_of_model(fs), True))
         scen.append((m, "ddpdd", "-", 0, None, True))
+        # a restart in a folder that already holds several backups (the new manager has to count all of them)
+        scen.append((m, "dddd" + "pdd", "-", 0, None, True))
+        scen.append((m, "ddddd" + "pd" + "pd", "-", 0, None, True))
         os.remove(dot)
 
     # ---- 2. run the real code ----------------------------------------------
